@@ -127,6 +127,25 @@ CursorInv(E, start, c) ==
        /\ c.flag = "text" => Truthy(E[c.el].text)
        /\ c.flag = "tail" => Truthy(E[c.el].tail)
 
+-----------------------------------------------------------------------------
+\* ---------- raw names that leak into Clark notation ("etree-clark-raw-name") ----------
+\* html5lib's etree builder writes "{uri}local" only for elements of the three namespaces of the parser and for the
+\* adjusted foreign attributes (xlink / xml / xmlns); every other name of the document is stored RAW.  A raw
+\* attribute name "{x}y" is therefore indistinguishable from Clark notation: the walker (correctly, for an
+\* ElementTree) reports (x, y), the dom walker reports (None, "{x}y") for the same document.  UnClark(stream) is the
+\* stream with every namespace the builder cannot have written folded back into the raw name: what the document said.
+BuilderElemNs == {NS_html, NS_svg, NS_mathml}
+BuilderAttrNs == {NS_xlink, NS_xml, NS_xmlns}
+RawName(ns, local) == <<LBRACE>> \o ns \o <<RBRACE>> \o local
+UnClarkTok(tok) ==
+    IF tok.t \notin {"StartTag", "EmptyTag", "EndTag"} THEN tok
+    ELSE LET t1 == IF tok.ns = None \/ tok.ns \in BuilderElemNs THEN tok
+                   ELSE [tok EXCEPT !.ns = None, !.n = RawName(tok.ns, tok.n)]
+         IN [t1 EXCEPT !.a = [j \in 1..Len(tok.a) |->
+                                 IF tok.a[j][1] = None \/ tok.a[j][1] \in BuilderAttrNs THEN tok.a[j]
+                                 ELSE <<None, RawName(tok.a[j][1], tok.a[j][2]), tok.a[j][3]>>]]
+UnClark(toks) == [i \in 1..Len(toks) |-> UnClarkTok(toks[i])]
+
 \* the deviations that change the stream of this ElementTree
 EtFiredOn(E, start, D) == {d \in D : EtRun(E, start, D) # EtRun(E, start, D \ {d})}
 =============================================================================
